@@ -10,6 +10,7 @@ import (
 	sdk "github.com/cosmos/cosmos-sdk/types"
 	stakingtypes "github.com/cosmos/cosmos-sdk/x/staking/types"
 
+	"github.com/bandprotocol/chain/v3/pkg/bandrng"
 	vs "github.com/bandprotocol/chain/v3/vsupport"
 	"github.com/bandprotocol/chain/v3/vsupport/venv"
 	"github.com/bandprotocol/chain/v3/x/oracle/types"
@@ -61,7 +62,7 @@ func VerifC09RandomValidators() {
 	for i := range draws {
 		draws[i] = vs.U64("draw")
 	}
-	vs.DrbgStream(draws)
+	bandrng.VerifSetStream(draws)
 
 	vals, err := k.GetRandomValidators(ctx, size, id)
 
